@@ -121,6 +121,9 @@ func searchFieldId(p *binary.BinaryProtocol, id proto.FieldNumber, messageLen in
 // packed: if idx is found, return the element[V] value start position, otherwise return the end of p.Buf
 // unpacked: if idx is found, return the element[TLV] tag position, otherwise return the end of p.Buf
 func searchIndex(p *binary.BinaryProtocol, idx int, elementWireType proto.WireType, isPacked bool, fieldNumber proto.FieldNumber) (int, error) {
+	if idx < 0 {
+		return 0, errNode(meta.ErrInvalidParam, "searchIndex: negative index", nil)
+	}
 	// packed list
 	cnt := 0
 	result := p.Read
@@ -138,6 +141,10 @@ func searchIndex(p *binary.BinaryProtocol, idx int, elementWireType proto.WireTy
 			}
 			cnt++
 		}
+		// the idx-th element exists only if the cursor is still inside the packed payload
+		if p.Read >= start+length {
+			return p.Read, errNotFound
+		}
 		result = p.Read
 	} else {
 		// normal Type : [tag][(length)][value][tag][(length)][value][tag][(length)][value]....
@@ -154,12 +161,16 @@ func searchIndex(p *binary.BinaryProtocol, idx int, elementWireType proto.WireTy
 					return 0, err
 				}
 				if elementFieldNumber != fieldNumber {
-					break
+					// the list ended before the idx-th element
+					return p.Read, errNotFound
 				}
 				if cnt < idx {
 					p.Read += n
 				}
 				result = p.Read + n
+			} else {
+				// the buffer ended before the idx-th element
+				return p.Read, errNotFound
 			}
 		}
 
